@@ -228,6 +228,9 @@ def handleSimOracle (st : OracleSt) (prop : String) (opToks out : List String) :
       match cmd with
       | .init es => ({ o := { cfgs := es, prev := cur }, nops := 0 }, "pass")
       | _ =>
+        -- a Trial labelled for another Experiment than the one that owns it (the harness marks it in the dump)
+        if let some t := dump.find? (fun t => (t.splitOn "!owner=").length > 1) then
+          ({ o := st.o, nops := st.nops + 1 }, s!"fail trial-not-labelled-for-its-owning-experiment {t}") else
         let kind : OpKind := match opToks with
           | "quiesce-begin" :: ns :: name :: _ => .quiesceBegin { ns, name }
           | "quiesce-end" :: ns :: name :: _ => .quiesceEnd { ns, name }
